@@ -140,7 +140,14 @@ func execMerge(p mprog, c *hx.Case) error {
 	defer verifhook.SetTuner(nil)
 	fs := storage.NewMemoryFilesystem()
 	var keep []*dkv.DB // dead processes run no cleanups
-	defer func() { runtime.KeepAlive(keep) }()
+	defer func() {
+		// nothing of this case may still run when its databases become garbage
+		// (their cleanups delete files a late background compaction would read)
+		for _, db := range keep {
+			hx.WaitTasks(db.WaitOnTasks)
+		}
+		runtime.KeepAlive(keep)
+	}()
 	open := func(dir string, r partitioning.KeyGroupRange, hs []recovery.CheckpointHandle) (db *dkv.DB, err error) {
 		defer func() {
 			if rec := recover(); rec != nil {
